@@ -129,6 +129,7 @@ def _make_empty_cog(
     predictor: Union[int, bool, Unset] = Unset(),
     blocksize: Union[int, List[Union[int, Tuple[int, int]]]] = 2048,
     bigtiff: bool = True,
+    yaxis: Optional[int] = None,
     **kw,
 ) -> Tuple[CogMeta, memoryview]:
     # pylint: disable=import-outside-toplevel,import-error
@@ -154,7 +155,7 @@ def _make_empty_cog(
     if isinstance(blocksize, int):
         blocksize = [blocksize]
 
-    ax, yaxis = yaxis_from_shape(shape, gbox)
+    ax, yaxis = yaxis_from_shape(shape, gbox, yaxis)
     im_shape = shape_(shape[yaxis : yaxis + 2])
     photometric = PHOTOMETRIC.MINISBLACK
     planarconfig = PLANARCONFIG.SEPARATE
@@ -654,6 +655,7 @@ def save_cog_with_dask(
         bigtiff=bigtiff,
         nodata=xx_odc.nodata,
         gdal_metadata=gdal_metadata,
+        yaxis=ydim if xx.ndim == 3 else None,
         **kw,
     )
     hdr0 = bytes(hdr0)
